@@ -30,3 +30,6 @@ import LP.Props.C20HSet
 #print axioms LP.HSet.C20_hset_insert_found
 #print axioms LP.HSet.C20_hset_remove_perm
 #print axioms LP.HSet.C20_hset_remove_missing
+#print axioms LP.HSet.extend_perm
+#print axioms LP.HSet.C20_hset_insert_perm_any
+#print axioms LP.HSet.C20_hset_reachable_size
